@@ -60,6 +60,11 @@ Basic ==
     Sc("resp-lazy-keep", r1(1, 1) \o stdin, << <<>> >>, <<>>, TRUE, << LazyProg >>, << Propagate >>),
     Sc("resp-part-keep", r1(1, 1) \o stdin, << <<>> >>, <<>>, TRUE, << PartProg >>, << Propagate >>),
     Sc("auth", r1(2, 1), << <<>> >>, <<>>, TRUE, << AuthProg >>, << Propagate >>),
+    \* input records larger than the buffer, left unread by the handler: close() has to skip them through the buffer
+    Sc("part-big-keep", r1(1, 1) \o << IStream(TStdin, Own, 41, 3), IStream(TStdin, Own, 0, 0) >> \o PreItems(Other, 1, 0, 0) \o << IStream(TStdin, Other, 0, 0) >>,
+       << <<>>, <<>> >>, <<>>, TRUE, << PartProg, ReadAllRet >>, << Propagate, Propagate >>),
+    Sc("lazy-big-keep", r1(1, 1) \o << IStream(TStdin, Own, 30, 0), IStream(TStdin, Own, 27, 5), IStream(TStdin, Own, 0, 0) >> \o PreItems(Other, 1, 0, 0) \o << IStream(TStdin, Other, 0, 0) >>,
+       << <<>>, <<>> >>, <<>>, TRUE, << LazyProg, ReadAllRet >>, << Propagate, Propagate >>),
     Sc("idle-keep", r1(1, 1) \o stdin, << <<>> >>, <<>>, FALSE, << LazyProg >>, << Propagate >>),
     Sc("filter", r1(3, 0) \o stdin \o data, << <<>> >>, <<>>, FALSE, << FilterProg >>, << Propagate >>),
     Sc("filter-wr", r1(3, 1) \o stdin \o data, << <<>> >>, <<>>, TRUE, << FilterWr >>, << Propagate >>),
